@@ -93,6 +93,14 @@ theorem stopCore_pres : Pres cfg (stopCore cfg inner) := by
   simp only []
   exact stopFinish_good ((stopTimers_pres cfg).step ((stopCommitReq_pres hin).step ((cancelWaiters_pres hin _).step h3))) q4.2
 
+omit hin hc in
+theorem stopCore_startD (s : St) : (stopCore cfg inner s).startD = .none := by
+  unfold stopCore
+  simp only []
+  generalize stopTimers _ = x
+  unfold stopFinish crash emit
+  grind
+
 include hqt hpn in
 theorem stop_pres : Pres cfg (stop cfg inner) := by
   intro s hs
@@ -102,6 +110,7 @@ theorem stop_pres : Pres cfg (stop cfg inner) := by
     leaf hx
   · simp only []
     have h1 := stopCore_pres hin hc hqt hpn s hs
+    have hsd := stopCore_startD (cfg := cfg) (inner := inner) s
     leaf h1
 
 omit hc in
